@@ -162,8 +162,11 @@ class FsMon:
     def _wrap_open(self, real: Any) -> Any:
         def wrapper(file: Any, mode: str = 'r', *a: Any, **kw: Any) -> Any:
             writing = any(ch in mode for ch in 'wxa+')
-            self._check('open-w' if writing else 'open-r', file,
-                        'w' if writing else 'r')
+            if kw.get('opener') is None:
+                self._check('open-w' if writing else 'open-r', file,
+                            'w' if writing else 'r')
+            # with an opener (tempfile does this) the path argument is not
+            # what gets opened; the opener's own os.open call is checked
             return real(file, mode, *a, **kw)
         return wrapper
 
